@@ -125,7 +125,7 @@ theorem unMarks_noinv {f : Value → Res Value} (hf : NoInv1 f) {a r : Value}
 
 theorem commutes_addU : Commutes2 addU := .of_strip (fun _ _ hx hy => addU_strip hx hy) addU_clean
 theorem commutes_subU : Commutes2 subU := .of_strip (fun _ _ hx hy => subU_strip hx hy) subU_clean
-theorem commutes_mulU : Commutes2 mulUC := .of_strip (fun _ _ hx hy => mulU_strip hx hy) mulU_clean
+theorem commutes_mulU : Commutes2 mulU := .of_strip (fun _ _ hx hy => mulU_strip hx hy) mulU_clean
 theorem commutes_divU : Commutes2 divU := .of_strip (fun _ _ hx hy => divU_strip hx hy) divU_clean
 theorem commutes_modU : Commutes2 modU := fun _ _ hx hy _ _ => Res.Rel.map_eq (modU_rel hx hy)
 theorem commutes_lessThanU : Commutes2 lessThanU := .of_strip (fun _ _ hx hy => lessThanU_strip hx hy) lessThanU_clean
